@@ -32,6 +32,14 @@ class Boom(RuntimeError):  # a RuntimeError on purpose: the sync facade must not
         self.idx = idx
 
 
+class Abort(BaseException):
+    """A failure that is not an Exception (what asyncio.CancelledError / KeyboardInterrupt look like to the engine)."""
+
+    def __init__(self, idx):
+        super().__init__(f"Abort({idx})")
+        self.idx = idx
+
+
 def lib_depth(root):
     """Number of frames on the current stack that execute library code."""
     f = sys._getframe(1)
@@ -69,6 +77,7 @@ class Script:
         self.lib_root = lib_root
         self.unawaited = []
         self.call_index = 0
+        self.raise_base_exception = False
         self.yields_by_name = {}
         self.coros = []
         self.policy = policy
@@ -123,7 +132,7 @@ class Script:
         act = self._decide_action(idx, provider, name, info, label, guard=name in self.guard_names)
         if act is not None and act[0] == "raise":
             self.log.append(("raise", idx))
-            raise Boom(idx)
+            raise (Abort if self.raise_base_exception else Boom)(idx)
         self._machine = machine
         return idx, label, act
 
@@ -459,17 +468,29 @@ class Acceptor:
                 return v
             return v
 
-        class NS(dict):
-            def __missing__(ns, k):  # noqa: N805
-                v = self.name_value(k, exp, reads, False)
-                if v is UNSET:
-                    raise _Unread(k)
-                return v
+        import ast as _ast
 
-        try:
-            return bool(eval(entry, {"__builtins__": {}}, NS()))  # noqa: S307 - our own guard expressions
-        except _Unread:
-            return UNSET
+        def kleene(node):
+            """Three-valued evaluation (True / False / UNSET): an unread operand does not hide a deciding one."""
+            if isinstance(node, _ast.BoolOp):
+                vals = [kleene(v) for v in node.values]
+                if isinstance(node.op, _ast.And):
+                    if any(v is False for v in vals):
+                        return False
+                    return True if all(v is True for v in vals) else UNSET
+                if any(v is True for v in vals):
+                    return True
+                return False if all(v is False for v in vals) else UNSET
+            if isinstance(node, _ast.UnaryOp) and isinstance(node.op, _ast.Not):
+                v = kleene(node.operand)
+                return UNSET if v is UNSET else (not v)
+            if isinstance(node, _ast.Name):
+                return self.name_value(node.id, exp, reads, False)
+            if isinstance(node, _ast.Constant):
+                return bool(node.value)
+            raise Reject("harness", f"guard expression {entry!r} is outside the acceptor's evaluator")
+
+        return kleene(_ast.parse(entry, mode="eval").body)
 
     # ------------------------------------------------------------------ one callback group
     def check_info(self, rec, ev, view, src, tgt, phase):
@@ -639,7 +660,7 @@ def outcome_of(fn, sm):
     """Run fn() and classify what the caller sees."""
     try:
         return ("ret", fn())
-    except Boom as e:
+    except (Boom, Abort) as e:
         return ("exc", ("Boom", e.idx))
     except sm.TransitionNotAllowed as e:
         return ("exc", ("TNA", str(e.event), getattr(e.state, "id", None)))
